@@ -1,4 +1,5 @@
 import HcModel.Characteristic
+import HcModel.Reentrant
 import HcModel.Drv.Util
 /-
   Line protocol of the characteristic model.
@@ -228,6 +229,23 @@ def handle : List String → String
         " | ".intercalate (runObs (start cfg) ops)
       | none => "bad-op"
     | _, _, _, _, _, _, _ => "bad-op"
+  | ["reent", g, f, p, mn, mx, same, tcb, iv, op, tbl] =>
+    -- one update (op) of a characteristic holding iv, whose callbacks react as in tbl ("a:b,c:d" or "-")
+    let pairs : Option (List (Int × Int)) :=
+      if tbl == "-" then some [] else
+      optAll ((tbl.splitOn ",").map fun e => match e.splitOn ":" with
+        | [a, b] => do pure ((← parseInt? a.toList), (← parseInt? b.toList))
+        | _ => none)
+    match parseFormat f, parsePerms p, parseG mn, parseG mx, same.toList, parseGType tcb, parseG iv, parseOp op, pairs, g.toList with
+    | some f, some p, some mn, some mx, [sb], some tcb, some iv, some (.update v fc cp), some pairs, [gb] =>
+      match parseBit sb, parseBit gb with
+      | some same, some g =>
+        let cfg : Config := ⟨f, p, mn, mx, same, tcb⟩
+        let c0 := (updateValue (init cfg) iv false false).1
+        let r := updateRe g (reactOf pairs) (pairs.length + 2) c0 v fc cp
+        showOutcome r.2 ++ " v=" ++ showG r.1.value ++ " cb=" ++ showCb (r.1.log.drop c0.log.length)
+      | _, _ => "bad-op"
+    | _, _, _, _, _, _, _, _, _, _ => "bad-op"
   | ["pf", h] =>
     match strOfHex (if h == "-" then [] else h.toList) with
     | some s => showF (parseFloat s)
